@@ -38,7 +38,7 @@ PROP = dict(
                  "always the std::string overload of communicate (a string literal binds to the (const void*, size_t, uint64_t) overload)",
                  "communicate timeouts are exercised only with a child that keeps stdout open",
                  "deadlines that must not expire are 60 s; expiring ones 100..300 ms",
-                 "callers with TWO OR MORE of their descriptors 0/1/2 closed are excluded by construction and counted (reported defect of the unmodified library: the child branch of Subprocess closes the parent's pipe ends after the dup2s, and with two standard descriptors closed those ends carry the numbers 1 / 2, so the child starts without stdout and/or stderr; repro: corpus/c15/pending_defect_caller_two_std_fds_closed.case.txt)",
+                 "callers with any subset of their descriptors 0/1/2 closed are generated (two or more closed used to break the child's stdout/stderr: repaired in /repo)",
                  "after the first deadlock or runaway verdict a shard skips its remaining cases (each further one would cost 10 s of silence or tens of seconds of CPU)",
                  "under communicate a background descendant of the child holds only stderr (communicate reads stdout to end-of-file and writes stdin until it is closed; what it owes while another process keeps one of those open is not stated)",
                  "a timeout that has to fire under periodic signals may be noticed up to 2 s late (run_process polls with a 1 s period); the signals reach only the calling process, never the child",
